@@ -86,4 +86,215 @@ theorem comparedates_safe (e : Ext) (a b : Nat → Int) (h1 : 3 ≤ e .date1) (h
   unfold comparedates
   wp_run
 
+theorem add1month_safe (e : Ext) (d : Nat → Int) (h : 3 ≤ e .date)
+    (hd : ∀ k, I32 (d k)) : Safe (add1month e d) := by
+  apply safe_of_wp (Q := fun _ => True)
+  unfold add1month
+  have h0 := hd 0
+  simp only [I32, i32max] at *
+  wp_run
+  all_goals simp at *
+  all_goals omega
+
+theorem getdate_safe (e : Ext) (d4 d2 d0 : Int) (h : 3 ≤ e .date)
+    (h0 : -2147483648 < d0 ∧ d0 < 2147483648) (h4 : -214748 ≤ d4 ∧ d4 ≤ 214748)
+    (h42 : -101 ≤ d2 - d4 * 100 ∧ d2 - d4 * 100 ≤ 101)
+    (h40 : -10001 ≤ d0 - d4 * 10000 ∧ d0 - d4 * 10000 ≤ 10001) (inrange : Bool) :
+    Safe (getdate e inrange (some d4) (some d2) (some d0)) := by
+  apply safe_of_wp (Q := fun _ => True)
+  unfold getdate
+  wp_run
+
+theorem getdate_rejects (e : Ext) (d4 d2 d0 : XInt) : Safe (getdate e false d4 d2 d0) := by
+  apply safe_of_wp (Q := fun _ => True)
+  unfold getdate
+  wp_run
+theorem add1day_safe (e : Ext) (d : Nat → Int) (h : 3 ≤ e .date)
+    (hd : ∀ k, I32 (d k)) : Safe (add1day e d) := by
+  apply safe_of_wp (Q := fun _ => True)
+  unfold add1day
+  have h0 := hd 0
+  have h2 := hd 2
+  have hr := nbdayOf_range (d 0) (d 1)
+  simp only [I32, i32max] at *
+  wp_run
+  all_goals simp at *
+  all_goals omega
+
+/-! ## stat package -/
+
+theorem armodelSim_safe (e : Ext) (nval nparams : Int) (pnan : Nat → Bool) (bad : Bool)
+    (h1 : nparams ≤ e .params) (h2 : nval ≤ e .innov) (h3 : nval ≤ e .outputs) :
+    Safe (armodelSim e nval nparams pnan bad) := by
+  apply safe_of_wp (Q := fun _ => True)
+  unfold armodelSim
+  refine wp_bind (wp_mono (wp_arChecks e nparams pnan bad h1) ?_)
+  intro c hc
+  cases c with
+  | none => wp_run
+  | some u =>
+    have := hc rfl
+    wp_run
+
+theorem armodelResidual_safe (e : Ext) (nval nparams : Int) (pnan : Nat → Bool) (bad : Bool) (xnan : Nat → Bool)
+    (h1 : nparams ≤ e .params) (h2 : nval ≤ e .inputs) (h3 : nval ≤ e .residuals) :
+    Safe (armodelResidual e nval nparams pnan bad xnan) := by
+  apply safe_of_wp (Q := fun _ => True)
+  unfold armodelResidual
+  refine wp_bind (wp_mono (wp_arChecks e nparams pnan bad h1) ?_)
+  intro c hc
+  cases c with
+  | none => wp_run
+  | some u =>
+    have := hc rfl
+    wp_run
+
+theorem adTest_safe (e : Ext) (nval : Int) (bad : Nat → Bool) (h1 : nval ≤ e .unifdata) (h2 : 2 ≤ e .outputs) :
+    Safe (adTest e nval bad) := by
+  apply safe_of_wp (Q := fun _ => True)
+  unfold adTest
+  wp_run
+  refine wp_forLoop (fun _ _ => True) _ _ _ trivial ?_ ?_
+  · intro j s _ _ _
+    wp_run
+  · intro x _
+    cases x <;> wp_run
+
+theorem olsleverage_safe (e : Ext) (nval npreds : Int) (hp : 0 ≤ npreds)
+    (h1 : npreds * nval ≤ e .predictors) (h2 : npreds * npreds ≤ e .tXXinv) (h3 : nval ≤ e .leverages)
+    (h32 : npreds * nval ≤ 2147483647) (h33 : npreds * npreds ≤ 2147483647) :
+    Safe (olsleverage e nval npreds) := by
+  apply safe_of_wp (Q := fun _ => True)
+  unfold olsleverage
+  refine wp_bind (wp_forEach (fun i hi0 hi1 => ?_) (wp_pure trivial))
+  have bi := mul_idx_bound hp hi0 (show i < nval by omega)
+  refine wp_forEach (fun j hj0 hj1 => ?_) trivial
+  have bj := mul_idx_bound hp hj0 (show j < npreds by omega)
+  wp_run
+
+theorem paretofront_safe (e : Ext) (nval ncol : Int) (dom : Nat → Nat → Bool) (hc : 0 ≤ ncol)
+    (h1 : ncol * nval ≤ e .data) (h2 : nval ≤ e .isdominated) (h32 : ncol * nval ≤ 2147483647) :
+    Safe (paretofront e nval ncol dom) := by
+  apply safe_of_wp (Q := fun _ => True)
+  unfold paretofront
+  refine wp_bind (wp_forEach (fun i hi0 hi1 => ?_) (wp_pure trivial))
+  have bi := mul_idx_bound hc hi0 (show i < nval by omega)
+  wp_run
+  refine wp_forLoop (fun _ _ => True) _ _ _ trivial ?_ ?_
+  · intro j s hj0 hj1 _
+    have bj := mul_idx_bound hc hj0 (show j < nval by omega)
+    wp_run
+  · intro x _
+    wp_run
+theorem crps_safe (e : Ext) (nval ncol useW : Int) (unsorted : Nat → Nat → Bool)
+    (hc : 1 ≤ ncol) (h1 : nval ≤ e .obs) (h2 : ncol * nval ≤ e .sim)
+    (h3 : useW = 1 → nval ≤ e .weights) (h4 : (ncol + 1) * 7 ≤ e .table) (h5 : 5 ≤ e .decompos)
+    (h32 : ncol * nval ≤ 2147483647) (h33 : (ncol + 1) * 7 ≤ 2147483647) :
+    Safe (crps e nval ncol useW unsorted) := by
+  apply safe_of_wp (Q := fun _ => True)
+  unfold crps
+  wp_lin
+  refine wp_forLoop (fun _ _ => True) _ _ _ trivial ?_ ?_
+  · intro i s hi0 hi1 _
+    have bi := mul_idx_bound (show (0:Int) ≤ ncol by omega) hi0 (show i < nval by omega)
+    unfold crpsRow
+    wp_lin
+    all_goals wp_run
+  · intro x _
+    wp_run
+
+theorem ensrank_safe (e : Ext) (nval ncol : Int) (badeps : Bool)
+    (h1 : ncol * nval ≤ e .sim) (h2 : nval * nval ≤ e .fmat) (h3 : nval ≤ e .ranks)
+    (h32 : ncol * nval ≤ 2147483647) (h33 : nval * nval ≤ 2147483647) (h34 : 2 * ncol ≤ 2147483647) :
+    Safe (ensrank e nval ncol badeps) := by
+  apply safe_of_wp (Q := fun _ => True)
+  unfold ensrank
+  refine wp_ite (fun _ => wp_pure trivial) (fun _ => wp_ite (fun _ => wp_pure trivial) (fun hn => ?_))
+  have hc : 0 ≤ ncol := by omega
+  refine wp_bind (wp_i32 ⟨by omega, by omega⟩ ?_)
+  refine wp_bind (wp_forEach (fun j _ _ => ?_) ?_)
+  · wp_run
+  refine wp_bind (wp_forEach (fun i1 hi10 hi11 => ?_) (wp_pure trivial))
+  refine wp_forEach (fun i2 hi20 hi21 => ?_) trivial
+  have b1 := mul_idx_bound hc hi10 (show i1 < nval by omega)
+  have b2 := mul_idx_bound hc (show 0 ≤ i2 by omega) (show i2 < nval by omega)
+  have e2 : ncol * (i2 - 1) = ncol * i2 - ncol := by ring
+  have b3 := mul_idx_bound' (show (0:Int) ≤ nval by omega) hi10 (show i1 < nval by omega)
+  unfold ensrankPair
+  wp_run
+/-! ## gis package -/
+open HydroVerif.C07
+
+theorem coord2cell_safe (e : Ext) (nrows ncols nval : Int) (fx fy : Nat → XInt)
+    (hN : nrows * ncols ≤ 9223372036854775807)
+    (h1 : 2 * nval ≤ e .xycoords) (h2 : nval ≤ e .idxcell) :
+    Safe (coord2cell e nrows ncols nval fx fy) := by
+  apply safe_of_wp (Q := fun _ => True)
+  unfold coord2cell
+  refine wp_bind (wp_forEach (fun i hi0 hi1 => ?_) (wp_pure trivial))
+  wp_lin
+  refine wp_mono (wp_coord2cell1 _ _ hN) (fun _ _ => ?_)
+  wp_lin
+
+theorem cell2rowcol_safe (e : Ext) (nrows ncols nval : Int) (cells : Nat → Int)
+    (hr : 0 ≤ nrows) (hc : 0 ≤ ncols) (hN : nrows * ncols ≤ 9223372036854775807)
+    (h1 : nval ≤ e .idxcell) (h2 : 2 * nval ≤ e .rowcols) :
+    Safe (cell2rowcol e nrows ncols nval cells) := by
+  apply safe_of_wp (Q := fun _ => True)
+  unfold cell2rowcol
+  have h0 : 0 ≤ nrows * ncols := Int.mul_nonneg hr hc
+  refine wp_bind (wp_forEach (fun i hi0 hi1 => ?_) (wp_pure trivial))
+  wp_lin
+  refine wp_getnxy (ncols_ne_zero_of_inGrid (nrows := nrows) (ncols := ncols) (c := cells i.toNat) (by unfold InGrid; omega)) (fun _ => ?_)
+  wp_lin
+
+theorem cell2coord_safe (e : Ext) (nrows ncols nval : Int) (cells : Nat → Int)
+    (hr : 0 ≤ nrows) (hc : 0 ≤ ncols) (hN : nrows * ncols ≤ 9223372036854775807)
+    (h1 : nval ≤ e .idxcell) (h2 : 2 * nval ≤ e .xycoords) :
+    Safe (cell2coord e nrows ncols nval cells) := by
+  apply safe_of_wp (Q := fun _ => True)
+  unfold cell2coord
+  have h0 : 0 ≤ nrows * ncols := Int.mul_nonneg hr hc
+  refine wp_bind (wp_forEach (fun i hi0 hi1 => ?_) (wp_pure trivial))
+  wp_lin
+  refine wp_getnxy (ncols_ne_zero_of_inGrid (nrows := nrows) (ncols := ncols) (c := cells i.toNat) (by unfold InGrid; omega)) (fun _ => ?_)
+  wp_lin
+
+theorem neighbours_safe (e : Ext) (nrows ncols idx : Int)
+    (hr : 0 ≤ nrows) (hc : 0 ≤ ncols) (hN : nrows * ncols ≤ 9223372036854775807)
+    (h1 : 9 ≤ e .neighbours) : Safe (neighbours e nrows ncols idx) := by
+  apply safe_of_wp (Q := fun _ => True)
+  unfold neighbours
+  refine wp_bind (wp_mono (wp_neighboursInto h1 hr hc hN) (fun r _ => ?_))
+  cases r <;> exact wp_pure trivial
+
+theorem upstream_safe (e : Ext) (nrows ncols nval : Int) (code fdir cells : Nat → Int)
+    (hr : 0 ≤ nrows) (hc : 0 ≤ ncols) (hN : nrows * ncols ≤ 9223372036854775807)
+    (hfd : nrows * ncols ≤ e .flowdir) (hcode : 9 ≤ e .flowdircode)
+    (h1 : nval ≤ e .idxdown) (h2 : 9 * nval ≤ e .idxup) :
+    Safe (upstream e nrows ncols nval code fdir cells) := by
+  apply safe_of_wp (Q := fun _ => True)
+  unfold upstream
+  refine wp_bind (wp_forLoop (fun _ _ => True) _ _ _ trivial ?_ ?_)
+  · intro i _ hi0 hi1 _
+    wp_lin
+    refine wp_mono (wp_upstream1 hr hc hN hfd hcode (by omega) (by omega)) (fun ok _ => ?_)
+    wp_lin
+  · intro x _
+    cases x <;> exact wp_pure trivial
+
+theorem downstream_safe (e : Ext) (nrows ncols nval : Int) (code fdir cells : Nat → Int)
+    (hr : 0 ≤ nrows) (hc : 0 ≤ ncols) (hN : nrows * ncols ≤ 9223372036854775807)
+    (hfd : nrows * ncols ≤ e .flowdir) (hcode : 9 ≤ e .flowdircode)
+    (h1 : nval ≤ e .idxup) (h2 : nval ≤ e .idxdown) :
+    Safe (downstream e nrows ncols nval code fdir cells) := by
+  apply safe_of_wp (Q := fun _ => True)
+  unfold downstream
+  refine wp_bind (wp_forLoop (fun _ _ => True) _ _ _ trivial ?_ ?_)
+  · intro i _ hi0 hi1 _
+    wp_lin
+    refine wp_mono (wp_downstream1 hr hc hN hfd hcode (by omega) (by omega) (by omega)) (fun d _ => ?_)
+    cases d <;> wp_lin
+  · intro x _
+    cases x <;> exact wp_pure trivial
 end HydroVerif.C05
